@@ -153,6 +153,22 @@ fn near_copy(r: &mut Rng, v: &Value) -> Value {
     match v {
         Value::Array(a) if !a.is_empty() && r.chance(3, 4) => {
             let mut b = a.clone();
+            // regrouping across a nesting boundary ([[1,2],3] vs [[1],2,3])
+            if r.chance(1, 5) {
+                if let Some(i) = b.iter().position(|x| matches!(x, Value::Array(_))) {
+                    if let Value::Array(inner) = &a[i] {
+                        let mut inner = inner.clone();
+                        if i + 1 < b.len() && r.chance(1, 2) {
+                            let moved = b.remove(i + 1);
+                            inner.push(moved);
+                        } else if let Some(moved) = inner.pop() {
+                            b.insert(i + 1, moved);
+                        }
+                        b[i] = Value::Array(inner);
+                        return Value::Array(b);
+                    }
+                }
+            }
             match r.below(4) {
                 0 => {
                     b.pop();
@@ -172,6 +188,23 @@ fn near_copy(r: &mut Rng, v: &Value) -> Value {
         }
         Value::Object(o) if !o.is_empty() && r.chance(3, 4) => {
             let mut es: Vec<json_syntax::object::Entry> = o.iter().cloned().collect();
+            // regrouping: the same flattened sequence of keys and leaves, one entry moved across a
+            // nesting boundary ({"a":{"b":1,"c":2}} vs {"a":{"b":1},"c":2})
+            if r.chance(1, 4) {
+                if let Some(i) = es.iter().position(|e| matches!(&e.value, Value::Object(_))) {
+                    if let Value::Object(inner) = &es[i].value {
+                        let mut inner_es: Vec<json_syntax::object::Entry> = inner.iter().cloned().collect();
+                        if i + 1 < es.len() && r.chance(1, 2) {
+                            let moved = es.remove(i + 1);
+                            inner_es.push(moved);
+                        } else if let Some(moved) = inner_es.pop() {
+                            es.insert(i + 1, moved);
+                        }
+                        es[i].value = Value::Object(Object::from_vec(inner_es));
+                        return Value::Object(Object::from_vec(es));
+                    }
+                }
+            }
             match r.below(5) {
                 0 => {
                     es.pop();
@@ -243,7 +276,8 @@ pub fn generate(args: &Args, out: &mut Out) {
     let small = [
         "n", "f", "t", "#30", "#31", "#31,30", "#2d,31", "$-", "$61", "$61,62", "$e000", "$10000", "$ffff", "$7f", "$80",
         "[ ]", "[ n ]", "[ n n ]", "[ [ ] ]", "{ }", "{ $61 n }", "{ $61 t }", "{ $62 n }", "{ $61 n $61 n }",
-        "{ $e000 n }", "{ $10000 n }", "{ $39 n }", "{ $31,30 n }", "{ $31,61 n }", "$39", "$31,30", "$31,61", "#39",
+        "{ $e000 n }", "{ $10000 n }", "{ $61 { $62 n $63 n } }", "{ $61 { $62 n } $63 n }", "{ $61 { } $62 n }", "{ $61 { $62 n } }", "[ [ n n ] ]", "[ [ n ] n ]",
+        "{ $39 n }", "{ $31,30 n }", "{ $31,61 n }", "$39", "$31,30", "$31,61", "#39",
     ];
     let lim = if full { small.len() } else { 16 };
     for a in &small[..small.len()] {
